@@ -2201,7 +2201,7 @@ impl<F: VfsFile> BPlusTree<F> {
 
 		// Proceed with redistribution
 		let new_separator = left_node.redistribute_to_right(right_node);
-		parent.keys[left_idx] = new_separator;
+		self.replace_separator(parent, left_idx, new_separator)?;
 
 		self.write_node_owned(NodeType::Leaf(left_node.clone()))?;
 		self.write_node_owned(NodeType::Leaf(right_node.clone()))?;
@@ -2265,11 +2265,32 @@ impl<F: VfsFile> BPlusTree<F> {
 
 		// Proceed with redistribution
 		let new_separator = left_node.take_from_right(right_node);
-		parent.keys[left_idx] = new_separator;
+		self.replace_separator(parent, left_idx, new_separator)?;
 
 		self.write_node_owned(NodeType::Leaf(left_node.clone()))?;
 		self.write_node_owned(NodeType::Leaf(right_node.clone()))?;
 
+		Ok(())
+	}
+
+	/// Replaces the separator at `idx` of `parent` by a new key.
+	///
+	/// The overflow chain recorded for that slot holds the tail of the OLD
+	/// separator. It must not survive the replacement: a later write of the
+	/// parent would either reuse it for the new key (the page then decodes to a
+	/// wrong key after a reload) or drop the pointer without freeing the pages.
+	fn replace_separator(
+		&mut self,
+		parent: &mut InternalNode,
+		idx: usize,
+		new_key: Bytes,
+	) -> Result<()> {
+		let old_overflow = parent.get_overflow_at(idx);
+		if old_overflow != 0 {
+			self.free_overflow_chain(old_overflow)?;
+			parent.set_overflow_at(idx, 0);
+		}
+		parent.keys[idx] = new_key;
 		Ok(())
 	}
 
